@@ -281,6 +281,23 @@ func (e *Engine) solveOne(common, base string, o *Oblig, cfg solveCfg) {
 	default:
 		o.Status = "undecided"
 		o.Model = best.out
+		// model search: same query over the model-search prelude (definitions instead of the
+		// trigger axioms). "sat" there is a genuine counterexample (see Engine.preludeModel).
+		if strings.HasPrefix(common, scriptHeader+e.prelude) {
+			mfile := file + ".modelsearch.smt2"
+			mq := scriptHeader + e.modelPreludeFor(common[len(scriptHeader+e.prelude):]+o.Guard+o.Goal) + common[len(scriptHeader+e.prelude):] + "; " + o.Name + "\n" +
+				fmt.Sprintf("(assert %s)\n(assert (not %s))\n(check-sat)\n", o.Guard, o.Goal)
+			os.WriteFile(mfile, []byte(mq), 0o644)
+			out, secs := runSolver(solvers[0], mfile, cfg.timeoutSec)
+			as, _ := parseAnswers(out)
+			if len(as) > 0 && as[0] == "sat" {
+				o.Status = "refuted"
+				o.Solver = solvers[0].Name + " (model search)"
+				o.Seconds += secs
+				o.Model = "sat (model-search variant of the query: " + mfile + ")"
+				o.ModelMode = true
+			}
+		}
 	}
 	o.File = file
 }
